@@ -307,6 +307,9 @@ def on_state(bd, hist_ops, col=None):
 
 def work(item, col):
     cfg = item
+    from vlib import poison
+
+    poison.install(SENT)
     if cfg["kind"] == "bfs":
         res = e1.bfs(
             make=lambda: make(cfg, col),
